@@ -44,6 +44,7 @@ Allowed(e) ==
 \* clauses that go beyond the statement: failing one of them is printed as <<"DRIFT_LINE", l>> and changes nothing
 DriftOK(e) ==
     CASE e.ev = "out" -> OutHintsOK(e.out) /\ OutConventionOK(e.src, e.rel, e.slash, e.out)
+      [] e.ev = "file" -> FileSegsOK(e.path, e.obs)
       [] e.ev = "pdh" -> DigestsOK(e.dkind, e.blocks)
       [] OTHER -> TRUE
 
